@@ -35,9 +35,9 @@ VOCAB = [
     "a*", "*b", "a*b",
     "*", "**",
 ]
-CORE = ["a", "b", "1", "-1", "c", "[0]", "[-1]", "[-2]", "[0:2]", "[1:1]", "[a:b]", "[&x]",
-        "[.=a]", "[.=1]", "[.!=1]", "[.^a]", "[.>0]", "[a=1]", "[a!=1]", "[b=a]", "[a.b=1]", "[.=~/^a/]",
-        "a*", "*", "**", "[1:9]"]
+CORE = ["a", "b", "1", "-1", "[0]", "[-1]", "[-2]", "[0:2]", "[1:1]", "[a:b]", "[&x]",
+        "[.=a]", "[.=1]", "[.!=1]", "[.^a]", "[.>0]", "[a=1]", "[a!=1]", "[a.b=1]", "[.=~/^a/]",
+        "a*", "*", "**"]
 
 
 def path_text(items, slash=False):
